@@ -42,6 +42,7 @@ func pad(n int) string {
 type c17Case struct {
 	History [][]int `json:"history"`
 	Rotate  bool    `json:"rotate"` // first bulk goes to an earlier fraction which is sealed
+	Rotate2 bool    `json:"rotate2,omitempty"` // (with Rotate) the second bulk goes to its own sealed fraction as well: three fractions
 	Stage   string  `json:"stage,omitempty"`
 	Check   string  `json:"check,omitempty"`
 }
@@ -68,7 +69,7 @@ func c17Judge(r *vlib.Run, c c17Case, stage string, fracs []frac.Fraction, docs 
 	viol := func(check, detail string) {
 		cc := c
 		cc.Stage, cc.Check = stage, check
-		r.Violation(fmt.Sprintf("history=%v rotate=%v stage=%s check=%s", c.History, c.Rotate, stage, check), cc, detail)
+		r.Violation(fmt.Sprintf("history=%v rotate=%v/%v stage=%s check=%s", c.History, c.Rotate, c.Rotate2, stage, check), cc, detail)
 	}
 	searcher := fracmanager.NewSearcher(2, fracmanager.SearcherCfg{FractionsPerIteration: 1})
 	for _, pq := range c17Queries {
@@ -107,7 +108,6 @@ func c17Judge(r *vlib.Run, c c17Case, stage string, fracs []frac.Fraction, docs 
 		}
 	}
 	// fetch: every document of the universe by ID (absent ones must be empty)
-	fetcher := fracmanager.NewFetcher(2)
 	var src []seq.IDSource
 	want := map[refdb.ID]string{}
 	for _, d := range docs {
@@ -116,14 +116,16 @@ func c17Judge(r *vlib.Run, c c17Case, stage string, fracs []frac.Fraction, docs 
 	for i := 1; i <= 4; i++ {
 		src = append(src, seq.IDSource{ID: vfrac.SeqID(c17Doc(i).ID)})
 	}
-	r.Add("evaluations", 1)
-	res, err := fetcher.FetchDocs(context.Background(), fracs, src)
-	if err != nil {
-		viol("fetch-error", err.Error())
-	} else {
-		for i, b := range res {
-			if string(b) != want[c17Doc(i+1).ID] {
-				viol(fmt.Sprintf("fetch id=%d", i+1), fmt.Sprintf("got %q want %q", b, want[c17Doc(i+1).ID]))
+	for _, workers := range []int{2, 1} { // fewer fetch workers than fractions: the fractions are read one after the other
+		r.Add("evaluations", 1)
+		res, err := fracmanager.NewFetcher(workers).FetchDocs(context.Background(), fracs, src)
+		if err != nil {
+			viol("fetch-error", err.Error())
+		} else {
+			for i, b := range res {
+				if string(b) != want[c17Doc(i+1).ID] {
+					viol(fmt.Sprintf("fetch id=%d workers=%d", i+1, workers), fmt.Sprintf("got %q want %q", b, want[c17Doc(i+1).ID]))
+				}
 			}
 		}
 	}
@@ -161,6 +163,25 @@ func c17Run(r *vlib.Run, env *vfrac.Env, c c17Case) {
 		list = append(list, s0)
 		cleanup = append(cleanup, s0.Suicide)
 		hist = hist[1:]
+		if c.Rotate2 && len(hist) > 1 {
+			a1 := env.NewActive(env.NextBase(), cfg)
+			var blk1 []refdb.Doc
+			for _, i := range hist[0] {
+				blk1 = append(blk1, c17Doc(i))
+			}
+			if err := env.Append(a1, blk1); err != nil {
+				panic(err)
+			}
+			all = append(all, blk1...)
+			s1, err := env.Seal(a1, frac.SealParams{IDsZstdLevel: 1, LIDsZstdLevel: 1, TokenListZstdLevel: 1, DocsPositionsZstdLevel: 1, TokenTableZstdLevel: 1, DocBlocksZstdLevel: 1}, nil)
+			if err != nil {
+				panic(err)
+			}
+			a1.Release()
+			list = append(list, s1)
+			cleanup = append(cleanup, s1.Suicide)
+			hist = hist[1:]
+		}
 	}
 	a := env.NewActive(env.NextBase(), cfg)
 	for _, b := range hist {
@@ -202,7 +223,7 @@ func c17Run(r *vlib.Run, env *vfrac.Env, c c17Case) {
 	r.Add("histories", 1)
 	dups := len(all) - len(docs)
 	if dups > 0 {
-		r.Distinct("nontrivial", fmt.Sprint(c.History, c.Rotate))
+		r.Distinct("nontrivial", fmt.Sprint(c.History, c.Rotate, c.Rotate2))
 	}
 }
 
@@ -321,7 +342,7 @@ func TestVerifC17(t *testing.T) {
 		return
 	}
 	if r.LoadReplay(&rc) {
-		c17Run(r, env, c17Case{History: rc.History, Rotate: rc.Rotate})
+		c17Run(r, env, c17Case{History: rc.History, Rotate: rc.Rotate, Rotate2: rc.Rotate2})
 		r.Finish(t, "model_checking", "replay", nil, nil)
 		return
 	}
@@ -355,6 +376,9 @@ func TestVerifC17(t *testing.T) {
 				cases = append(cases, c17Case{History: [][]int{b1, b2, b3}})
 				if r.Thorough() || bi%4 == 0 {
 					cases = append(cases, c17Case{History: [][]int{b1, b2, b3}, Rotate: true})
+				}
+				if r.Thorough() || bi%4 == 1 {
+					cases = append(cases, c17Case{History: [][]int{b1, b2, b3}, Rotate: true, Rotate2: true})
 				}
 			}
 		}
